@@ -139,4 +139,303 @@ theorem tag_refines (l : List Str) (st : Store) (log : List Eff) (a : Abs) (pid 
           exact ⟨_, _, tag_neither cfg o l st log p c hp hc h1 h2, hrel _ _,
             exact_tag_new_list o st p c _ hi hp h1 h2 (hcp c rfl), ⟨rfl, rfl, fun x hx => by simp [hx]⟩, rfl⟩
 
+/-- the simulation invariant: the abstract state is what the store holds, and the store is consistent -/
+structure Sim (s : Store) (a : Abs) : Prop where
+  rel  : Rel o s a
+  refs : RefsExact o s
+  docs : DocsOk o s
+
+theorem docsPlainM_of_ok {s : Store} (h : DocsOk o s) (hid : PlainIds o) : DocsPlainM s.mdocs s.dirs := by
+  intro d n t ht
+  obtain ⟨p, f, _, hn⟩ := h.named d n t ht
+  exact ⟨hn ▸ hid _, h.dir d n t ht⟩
+
+theorem deleteObj_err (a : Abs) {pid : SArg} {e : Exc} (h : checkString pid = .error e) :
+    Abs.deleteObj a pid = (.error e, a) := by
+  simp [Abs.deleteObj, h]
+
+theorem deleteObj_unbound (a : Abs) {pid : SArg} {p : Str} (h : checkString pid = .ok p) (hb : a.bind.get p = none) :
+    Abs.deleteObj a pid = (.error .pidRefsDoesNotExist, a) := by
+  simp [Abs.deleteObj, h, hb]
+
+theorem deleteObj_bound (a : Abs) {pid : SArg} {p c : Str} (h : checkString pid = .ok p) (hb : a.bind.get p = some c) :
+    Abs.deleteObj a pid = (.ok .unit,
+      { objs := if ({ a with bind := a.bind.del p } : Abs).referenced c then a.objs else a.objs.del c,
+        bind := a.bind.del p, docs := a.dropDocs p }) := by
+  simp [Abs.deleteObj, h, hb]
+
+/-- `delete_object`: same result as the specification, related final states -/
+theorem delete_refines (st : Store) (log : List Eff) (a : Abs) (pid : SArg)
+    (hs : Sim o st a) (hid : PlainIds o) (hinj : Inj o.hId) :
+    ∃ w', (deleteObject cfg o pid).run (calm st log) = ((Abs.deleteObj a pid).1, w') ∧
+      w'.lk = {} ∧ w'.fault = none ∧ Sim o w'.st (Abs.deleteObj a pid).2 := by
+  obtain ⟨hr, hi, hd⟩ := hs
+  cases hpc : checkString pid with
+  | error e =>
+    rw [deleteObj_err a hpc]
+    refine ⟨calm st log, ?_, rfl, rfl, ⟨hr, hi, hd⟩⟩
+    simp [deleteObject, runsimp, hpc, calm]
+  | ok p =>
+    obtain ⟨hp1, hp⟩ := checkString_ok_inv hpc
+    subst hp1
+    cases h1 : st.pidRefs.get (o.hId p) with
+    | none =>
+      have hb : a.bind.get p = none := by rw [hr.bind]; exact h1
+      rw [deleteObj_unbound a hpc hb]
+      exact ⟨calm st log, delete_unknown cfg o st log p hp h1, rfl, rfl, ⟨hr, hi, hd⟩⟩
+    | some c =>
+      have hb : a.bind.get p = some c := by rw [hr.bind]; exact h1
+      rw [deleteObj_bound a hpc hb]
+      obtain ⟨ls, w', h2, hsp, hmem, hrun, hlk, hnf, htr, hto, hpid, hcid, hobj⟩ :=
+        delete_effect o cfg st log p c hi hid (fun r e => hinj r p e) hp h1
+      obtain ⟨r2, w2, hrun2, hdd⟩ := delete_docs cfg o st log p c ls hp h1 h2 hsp hmem (docsPlainM_of_ok o hd hid)
+      rw [hrun] at hrun2
+      injection hrun2 with _ hw
+      subst hw
+      refine ⟨w', hrun, hlk, hnf, ?_, ?_, ?_⟩
+      · -- Rel
+        have hwf1 : ({ a with bind := a.bind.del p } : Abs).bind.WF := FMap.wf_del _ _ hr.wf
+        have href : ({ a with bind := a.bind.del p } : Abs).referenced c = true ↔
+            ls.filter (fun l => !decide (l = p)) ≠ [] := by
+          rw [Abs.referenced_iff _ hwf1]
+          constructor
+          · rintro ⟨q, hq⟩
+            simp only at hq
+            rw [FMap.get_del] at hq
+            split at hq
+            · cases hq
+            · rename_i hne
+              rw [hr.bind] at hq
+              obtain ⟨q', hq', _, t, ht, hin⟩ := hi.pid_listed _ _ hq
+              have := hinj _ _ hq'; subst this
+              rw [h2] at ht; cases ht
+              rw [inRefs_render q ls hsp] at hin
+              have hq1 : q ∈ ls := by simpa using hin
+              exact List.ne_nil_of_mem (List.mem_filter.2 ⟨hq1, by simpa using fun e => hne e.symm⟩)
+          · intro hne
+            obtain ⟨q, hq⟩ := List.exists_mem_of_ne_nil _ hne
+            obtain ⟨hq1, hq2⟩ := List.mem_filter.1 hq
+            have hqp : q ≠ p := by simpa using hq2
+            obtain ⟨ls0, hls0, _, _, hall0⟩ := hi.list_ok c _ h2
+            have hsp0 : ∀ l ∈ ls0, hasSpace l = false := fun l hl => nospace_of_ok (hall0 l hl).1
+            have := renderLines_inj ls ls0 hsp hsp0 hls0
+            subst this
+            refine ⟨q, ?_⟩
+            simp only
+            rw [FMap.get_del_ne _ (fun e => hqp e.symm), hr.bind]
+            exact (hall0 q hq1).2
+        refine ⟨?_, ?_, ?_, FMap.wf_del _ _ hr.wf⟩
+        · intro q
+          simp only
+          rw [hpid, FMap.get_del]
+          by_cases e : p = q
+          · subst e; simp
+          · have : o.hId p ≠ o.hId q := fun e2 => e (hinj _ _ e2)
+            simp [e, this, hr.bind]
+        · intro j
+          simp only
+          rw [hobj]
+          by_cases hrest : ls.filter (fun l => !decide (l = p)) = []
+          · have : ({ a with bind := a.bind.del p } : Abs).referenced c = false := by
+              cases hx : ({ a with bind := a.bind.del p } : Abs).referenced c with
+              | false => rfl
+              | true => exact absurd hrest (href.1 hx)
+            rw [this]
+            simp only [Bool.false_eq_true, if_false, hrest, and_true]
+            rw [FMap.get_del]
+            split <;> simp [hr.objs]
+          · have : ({ a with bind := a.bind.del p } : Abs).referenced c = true := href.2 hrest
+            rw [this]
+            simp [hrest, hr.objs]
+        · intro q g
+          simp only
+          rw [Abs.dropDocs_get, hdd.get]
+          by_cases e : q = p
+          · subst e; simp
+          · have : o.hId q ≠ o.hId p := fun e2 => e (hinj _ _ e2)
+            simp [e, this, hr.docs]
+      · -- RefsExact
+        refine exact_delete_core o st w'.st p c ls hi (fun r e => hinj r p e) h1 h2 hsp hpid hcid ?_ ⟨htr, hto⟩
+        intro j y hy
+        rw [hobj] at hy
+        split at hy
+        · cases hy
+        · exact hy
+      · -- DocsOk
+        refine ⟨?_, ?_, by rw [hdd.tmp]; exact hd.no_tmp⟩
+        · intro d n t ht
+          rw [hdd.get] at ht
+          split at ht
+          · cases ht
+          · exact hd.named d n t ht
+        · intro d n t ht
+          rw [hdd.get] at ht
+          split at ht
+          · cases ht
+          · rw [hdd.dirs]; exact hd.dir d n t ht
+
+/-- digests are acceptable identifiers (non-empty, no white space: they are hexadecimal) -/
+def OkDigests : Prop := ∀ a t, checkStringOk (o.dig a t) = true
+
+theorem strArg_eq (c : SArg) : strArg c = Abs.sArgStr c := by cases c <;> rfl
+
+/-- what `_move_and_get_checksums` leaves: the simulation with `addObj` (or with the same state on a refusal) -/
+theorem sim_after_place (st st1 : Store) (a : Abs) (t : Tok) (placed : Bool)
+    (hs : Sim o st a) (hdg : PlainDigests o)
+    (hp : st1.pidRefs = st.pidRefs) (hc : st1.cidRefs = st.cidRefs) (htr : st1.tmpRefs = st.tmpRefs)
+    (hto : st1.tmpObj = st.tmpObj) (hm : st1.mdocs = st.mdocs) (htm : st1.tmpMeta = st.tmpMeta)
+    (hdirs : ∀ x ∈ st.dirs, x ∈ st1.dirs)
+    (hobj : ∀ j, st1.objs.get j =
+      if placed = true ∧ st.objs.get (o.dig cfg.alg t) = none ∧ o.dig cfg.alg t = j then some t else st.objs.get j) :
+    Sim o st1 (if placed then a.addObj (o.dig cfg.alg t) t else a) := by
+  obtain ⟨hr, hi, hd⟩ := hs
+  refine ⟨?_, ?_, docsOk_same o hd ⟨hm, htm, hdirs⟩⟩
+  · cases placed with
+    | false =>
+      simp only [Bool.false_eq_true, false_and, if_false] at hobj ⊢
+      exact ⟨by intro q; rw [hp]; exact hr.bind q, by intro j; rw [hobj]; exact hr.objs j,
+        by intro q f; rw [hm]; exact hr.docs q f, hr.wf⟩
+    | true =>
+      simp only [true_and, if_true] at hobj ⊢
+      refine ⟨by intro q; rw [hp, Abs.addObj_bind]; exact hr.bind q, ?_,
+        by intro q f; rw [hm, Abs.addObj_docs]; exact hr.docs q f, by rw [Abs.addObj_bind]; exact hr.wf⟩
+      intro j
+      rw [hobj]
+      unfold Abs.addObj
+      cases hx : st.objs.get (o.dig cfg.alg t) with
+      | none =>
+        have : a.objs.contains (o.dig cfg.alg t) = false := by simp [FMap.contains, hr.objs, hx]
+        simp only [this, Bool.false_eq_true, if_false, true_and]
+        rw [FMap.get_set]
+        by_cases e : o.dig cfg.alg t = j
+        · simp [e]
+        · simp [e, hr.objs]
+      | some y =>
+        have : a.objs.contains (o.dig cfg.alg t) = true := by simp [FMap.contains, hr.objs, hx]
+        simp [this, hr.objs]
+  · refine ⟨?_, ?_, by rw [htr, hto]; exact hi.no_tmp, ?_, ?_⟩
+    · intro k c hk; rw [hp] at hk; rw [hc]; exact hi.pid_listed k c hk
+    · intro c x hx; rw [hc] at hx; rw [hp]; exact hi.list_ok c x hx
+    · intro c x hx; rw [hc] at hx; exact hi.cid_plain c x hx
+    · intro c x hx
+      rw [hobj] at hx
+      split at hx
+      · rename_i h; rw [← h.2.2]; exact hdg _ _
+      · exact hi.obj_plain c x hx
+
+theorem storeObject_pid_unfold (pid : SArg) (data : DataArg) (additional checksum csAlg : SArg) (expSize : IArg)
+    (hnone : pid ≠ .none) :
+    storeObject cfg o pid data additional checksum csAlg expSize =
+      (do
+        let p ← PE.ofExcept (checkString pid)
+        PE.ofExcept (checkArgData data)
+        PE.ofExcept (checkInteger expSize)
+        let (add', cs') ← PE.ofExcept (checkArgAlgorithmsAndChecksum cfg.alg additional checksum csAlg)
+        if ← inProgress p then throw Exc.storeObjectInProgress
+        PE.withFinally (do
+            acquire .objPid p
+            let t ← PE.ofExcept (openStream data)
+            let m ← moveAndGetChecksums cfg o (some p) t add' cs' (strArg checksum) expSize
+            let _ ← tagObject cfg o (.str p) (.str m.cid)
+            return .objMeta m)
+          (release .objPid p) : PE Val) := by
+  cases pid with
+  | none => exact absurd rfl hnone
+  | other => rfl
+  | str s => rfl
+
+/-- `store_object(pid, …)`: same result as the specification, related final states -/
+theorem store_refines (st : Store) (log : List Eff) (a : Abs) (pid : SArg) (data : DataArg)
+    (additional checksum csAlg : SArg) (expSize : IArg) (hnone : pid ≠ .none)
+    (hs : Sim o st a) (hdg : PlainDigests o) (hok : OkDigests o) (hinj : Inj o.hId) :
+    ∃ w', (storeObject cfg o pid data additional checksum csAlg expSize).run (calm st log) =
+        ((Abs.storeObj cfg o a pid data additional checksum csAlg expSize).1, w') ∧
+      w'.lk = {} ∧ w'.fault = none ∧
+      Sim o w'.st (Abs.storeObj cfg o a pid data additional checksum csAlg expSize).2 := by
+  rw [storeObject_pid_unfold cfg o pid data additional checksum csAlg expSize hnone]
+  cases hpc : checkString pid with
+  | error e =>
+    have hspec : Abs.storeObj cfg o a pid data additional checksum csAlg expSize = (.error e, a) := by
+      simp [Abs.storeObj, Abs.storeArgs, hpc]
+    rw [hspec]
+    exact ⟨calm st log, by simp [runsimp], rfl, rfl, hs⟩
+  | ok p =>
+    cases hd : checkArgData data with
+    | error e =>
+      have hspec : Abs.storeObj cfg o a pid data additional checksum csAlg expSize = (.error e, a) := by
+        simp [Abs.storeObj, Abs.storeArgs, hpc, hd]
+      rw [hspec]
+      exact ⟨calm st log, by simp [runsimp], rfl, rfl, hs⟩
+    | ok _ =>
+      cases hi : checkInteger expSize with
+      | error e =>
+        have hspec : Abs.storeObj cfg o a pid data additional checksum csAlg expSize = (.error e, a) := by
+          simp [Abs.storeObj, Abs.storeArgs, hpc, hd, hi]
+        rw [hspec]
+        exact ⟨calm st log, by simp [runsimp], rfl, rfl, hs⟩
+      | ok _ =>
+        cases hac : checkArgAlgorithmsAndChecksum cfg.alg additional checksum csAlg with
+        | error e =>
+          have hspec : Abs.storeObj cfg o a pid data additional checksum csAlg expSize = (.error e, a) := by
+            simp [Abs.storeObj, Abs.storeArgs, hpc, hd, hi, hac]
+          rw [hspec]
+          exact ⟨calm st log, by simp [runsimp], rfl, rfl, hs⟩
+        | ok ac =>
+          obtain ⟨add', cs'⟩ := ac
+          cases hst : openStream data with
+          | error e =>
+            have hspec : Abs.storeObj cfg o a pid data additional checksum csAlg expSize = (.error e, a) := by
+              simp [Abs.storeObj, Abs.storeArgs, hpc, hd, hi, hac, hst]
+            rw [hspec]
+            exact ⟨calm st log, by simp [runsimp, calm, calmL], rfl, rfl, hs⟩
+          | ok t =>
+            have hargs : Abs.storeArgs cfg pid data additional checksum csAlg expSize = .ok (p, add', cs', t) := by
+              simp [Abs.storeArgs, hpc, hd, hi, hac, hst]
+            obtain ⟨st1, log1, hrun1, f1, f2, f3, f4, f5, f6, f7, f8⟩ :=
+              mv_run_pid_spec cfg o [p] st log p t add' cs' (strArg checksum) expSize
+            simp only [calmL] at hrun1
+            cases hv : (verdict ((refineAlgorithmList defaultAlgos add' cs').map fun a => (a, o.dig a t))
+                (fun a => o.dig a t) (o.size t) expSize (strArg checksum) cs').exc with
+            | some e =>
+              have hspec : Abs.storeObj cfg o a pid data additional checksum csAlg expSize = (.error e, a) := by
+                simp only [Abs.storeObj, hargs]
+                rw [← strArg_eq]
+                simp only [Abs.objMetaOf]
+                rw [hv]
+              rw [hspec]
+              rw [hv] at hrun1
+              have hsim := sim_after_place cfg o st st1 a t false hs hdg f1 f2 f3 f4 f5 f6 f7
+                (by intro j; rw [f8 j, hv]; simp)
+              have hsim' : Sim o st1 a := by simpa using hsim
+              refine ⟨calm st1 (log1), ?_, rfl, rfl, hsim'⟩
+              simp [runsimp, calm, calmL, Prog.run_bind, Prog.run_bind_pe, hrun1]
+            | none =>
+              rw [hv] at hrun1
+              have hsim1 := sim_after_place cfg o st st1 a t true hs hdg f1 f2 f3 f4 f5 f6 f7
+                (by intro j; rw [f8 j, hv]; simp)
+              have hsim1' : Sim o st1 (a.addObj (o.dig cfg.alg t) t) := by simpa using hsim1
+              obtain ⟨hr1, hi1, hd1⟩ := hsim1'
+              obtain ⟨st2, log2, hrun2, hr2, hi2, hds2, _⟩ :=
+                tag_refines cfg o [p] st1 log1 (a.addObj (o.dig cfg.alg t) t) (.str p) (.str (o.dig cfg.alg t))
+                  hr1 hi1 hinj (by intro c hc; cases hc; exact hdg _ _)
+              simp only [calmL] at hrun2
+              obtain ⟨_, hpok⟩ := checkString_ok_inv hpc
+              have hcid : checkString (.str (o.dig cfg.alg t)) = .ok (o.dig cfg.alg t) := checkString_of_ok (hok _ _)
+              have hpstr : checkString (.str p) = .ok p := checkString_of_ok hpok
+              have htag := tagObj_ok (a.addObj (o.dig cfg.alg t) t) hpstr hcid
+              have hspec : Abs.storeObj cfg o a pid data additional checksum csAlg expSize =
+                  (((a.addObj (o.dig cfg.alg t) t).tag p (o.dig cfg.alg t)).1.map
+                      fun _ => Val.objMeta (Abs.objMetaOf cfg o t add' cs'),
+                   ((a.addObj (o.dig cfg.alg t) t).tag p (o.dig cfg.alg t)).2) := by
+                simp only [Abs.storeObj, hargs]
+                rw [← strArg_eq]
+                simp only [Abs.objMetaOf]
+                rw [hv]
+              rw [hspec]
+              rw [htag] at hrun2 hr2
+              have hd2 := docsOk_same o hd1 hds2
+              refine ⟨calm st2 log2, ?_, rfl, rfl, ⟨hr2, hi2, hd2⟩⟩
+              simp [runsimp, calm, calmL, Prog.run_bind, Prog.run_bind_pe, hrun1, hrun2]
+              cases ((a.addObj (o.dig cfg.alg t) t).tag p (o.dig cfg.alg t)).1 <;> simp [runsimp, Except.map, Abs.objMetaOf]
+
 end HS
